@@ -368,15 +368,17 @@ class Evaluator:
         return out
 
     # ----------------------------------------------------------- statements
-    def exec_block(self, stmts, st):
+    def exec_block(self, stmts, st, keep=False):
         """Returns the state after the block, or None if every path through
-        it terminates (return / raise / break / continue)."""
+        it terminates (return / raise / break / continue).  With keep=True the conditions the block left on the path
+        (`if d: return` inside it) stay on self.pc for the caller to use."""
         mark = len(self.pc)
         for s in stmts:
             st = self.exec_stmt(s, st)
             if st is None:
                 break
-        del self.pc[mark:]
+        if not keep or st is None:
+            del self.pc[mark:]
         return st
 
     def exec_stmt(self, s, st):
@@ -496,24 +498,33 @@ class Evaluator:
         self.emit("test", s, cond=c, stmt=s)
         tv = T.truth(c) if T.is_pure_const(c) else None
         if tv is True:
-            return self.exec_block(s.body, st)
+            return self.exec_block(s.body, st, keep=True)   # a branch decided statically is part of the enclosing block
         if tv is False:
-            return self.exec_block(s.orelse, st)
+            return self.exec_block(s.orelse, st, keep=True)
         mark = len(self.pc)
         self.push_pc(c, True, s.test)
-        s1 = self.exec_block(s.body, st.copy())
+        s1 = self.exec_block(s.body, st.copy(), keep=True)
+        left1 = self.pc[mark + 1:] if s1 is not None else []   # what an early exit inside the branch leaves on the surviving path
         del self.pc[mark:]
         self.push_pc(c, False, s.test)
-        s2 = self.exec_block(s.orelse, st.copy()) if s.orelse else st.copy()
+        s2 = self.exec_block(s.orelse, st.copy(), keep=True) if s.orelse else st.copy()
+        left2 = self.pc[mark + 1:] if s2 is not None else []
         del self.pc[mark:]
         if s1 is None and s2 is None:
             return None
         if s1 is None:
             self.push_pc(c, False, s.test)  # stays for the rest of the enclosing block
+            self.pc.extend(left2)
             return s2
         if s2 is None:
             self.push_pc(c, True, s.test)
+            self.pc.extend(left1)
             return s1
+        if left1 or left2:
+            # both branches go on, but one of them only under a further condition: (c and r1) or (not c and r2)
+            r1 = T.mk_and([c] + [p_.cond for p_ in left1])
+            r2 = T.mk_and([T.mk_not(c)] + [p_.cond for p_ in left2])
+            self.push_pc(T.mk_or([r1, r2]), True, s.test)
         return State(self._merge_maps(c, s1.attrs, s2.attrs), self._merge_locs(c, s1.locs, s2.locs))
 
     def exec_loop(self, s, st):
@@ -750,13 +761,37 @@ class Evaluator:
                 path.append(("item", self.ev_slice(e.slice, st)))
                 e = e.value
             elif isinstance(e, ast.Name):
+                fld = self._alias_of_attr(st.locs.get(e.id), st) if self.recv is not None else None
+                if fld is not None:
+                    # a local bound to the object a self attribute holds: mutating it in place mutates that attribute's object
+                    path.append(("attr0", fld))
+                    return ("self", fld), path[::-1]
                 return ("local", e.id), path[::-1]
             elif isinstance(e, ast.Call):
+                g = self._static_getattr(e, st)
+                if g is not None:
+                    e = g   # getattr(self, "<constant>")[k] = v
+                    continue
                 v = self.ev(e, st)
                 return ("value", v), path[::-1]
             else:
                 v = self.ev(e, st)
                 return ("value", v), path[::-1]
+
+    def _alias_of_attr(self, v, st):
+        """field name when the local value v IS the (mutable) object currently held by a self attribute, else None"""
+        a = v.single_atom() if isinstance(v, R) else None
+        if a is None or a[0] not in ("attr", "appended", "mutated", "setitem", "list", "dict", "objstate", "loopvar", "new"):
+            return None
+        if a[0] == "attr":
+            cur = st.attrs.get(a[1])
+            return a[1] if cur is None or cur == v else None
+        if a[0] == "loopvar" and isinstance(a[2], str) and not a[2].startswith("$"):
+            return a[2] if st.attrs.get(a[2]) == v else None
+        for k, val in st.attrs.items():
+            if val is v or (val == v and a[0] != "list" and a[0] != "dict"):
+                return k
+        return None
 
     def _mutate(self, root, path, how, v, st, stmt, aug=None):
         if root[0] == "self":
@@ -1505,6 +1540,32 @@ class Evaluator:
             return T.NONE
         if d == "getattr" or d == "setattr":
             raise AnalysisError("dynamic attribute access (%s) at line %d" % (d, node.lineno))
+        if d == "len" and len(args) == 1 and not kwargs:
+            # len(np.array(x)) == len(list(x)) == len(x);  len(x + c) == len(c * x) == len(x) for elementwise arithmetic with a scalar
+            x = args[0]
+            for _ in range(6):
+                xa = x.single_atom()
+                if xa is not None and xa[0] == "call" and xa[1] in ("numpy.array", "numpy.asarray") and len(xa[2]) == 1 and not xa[3]:
+                    x = xa[2][0]
+                    continue
+                if xa is None and not x.is_const() and x.den == (((), T.Fraction(1)),):
+                    monos = [m for m, _c in x.num if m]
+                    if len(monos) == 1 and len(monos[0]) == 1 and monos[0][0][1] == 1 and monos[0][0][0][0] in ("call", "param", "attr", "getattr", "sub", "mcall"):
+                        x = atom(monos[0][0][0])
+                        continue
+                break
+            if x is not args[0]:
+                xa = x.single_atom()
+                if xa is not None and xa[0] in ("list", "tuple"):
+                    return const(len(xa[1]))
+                res = atom(("call", "len", (x,), ()))
+                self.emit("call", node, callee=("lib", "len"), fi=None, args=(x,), kwargs=(), result=res)
+                return res
+        if d == "map" and len(args) == 2 and not kwargs:
+            la = args[1].single_atom()
+            if la is not None and la[0] in ("tuple", "list") and 1 <= len(la[1]) <= 6:
+                # map(f, (a, b)) consumed here: [f(a), f(b)]
+                return atom(("list", tuple(self._call_value(args[0], [x], {}, st, node) for x in la[1])))
         if d == "zip" and len(args) >= 2 and not kwargs:
             lits = [x.single_atom() for x in args]
             if all(l is not None and l[0] in ("tuple", "list") for l in lits) and len({len(l[1]) for l in lits}) == 1 and len(lits[0][1]) <= 8:
@@ -1582,6 +1643,25 @@ class Evaluator:
             bad = set()
             for c in self.recv.mro if self.recv else []:
                 for fi in c.methods.values():
+                    local_cls = {}   # locals bound once to a constructor call: `p = Cls(...); self.x = p`
+                    for n in ast.walk(fi.node):
+                        if isinstance(n, ast.Assign) and isinstance(n.value, ast.Call) and len(n.targets) == 1 and isinstance(n.targets[0], ast.Name):
+                            d = self.prog.dotted(c.module, n.value.func)
+                            tc = self.prog.class_by_dotted(d) if d else None
+                            nm = n.targets[0].id
+                            local_cls[nm] = tc if nm not in local_cls else None
+                        elif isinstance(n, (ast.Assign, ast.AugAssign, ast.For)) :
+                            for t_ in ast.walk(n.targets[0] if isinstance(n, ast.Assign) else n.target):
+                                if isinstance(t_, ast.Name) and isinstance(t_.ctx, ast.Store) and not (isinstance(n, ast.Assign) and isinstance(n.value, ast.Call) and len(n.targets) == 1):
+                                    local_cls[t_.id] = None
+                    for n in ast.walk(fi.node):
+                        if isinstance(n, ast.Assign) and isinstance(n.value, ast.Name) and local_cls.get(n.value.id) is not None:
+                            tc = local_cls[n.value.id]
+                            for t in n.targets:
+                                if isinstance(t, ast.Attribute) and isinstance(t.value, ast.Name) and t.value.id == "self":
+                                    if t.attr in tab and tab[t.attr] is not tc:
+                                        bad.add(t.attr)
+                                    tab[t.attr] = tc
                     for n in ast.walk(fi.node):
                         if isinstance(n, ast.Assign) and isinstance(n.value, ast.Call):
                             d = self.prog.dotted(c.module, n.value.func)
